@@ -126,7 +126,7 @@ fn openssl_csr(key: &PKey<Private>, md: MessageDigest, sans: bool) -> Vec<u8> {
 	b.build().to_der().unwrap()
 }
 
-fn tlv(tag: u8, content: &[u8]) -> Vec<u8> {
+pub fn tlv(tag: u8, content: &[u8]) -> Vec<u8> {
 	let mut v = vec![tag];
 	let n = content.len();
 	if n < 128 {
@@ -138,6 +138,86 @@ fn tlv(tag: u8, content: &[u8]) -> Vec<u8> {
 	}
 	v.extend_from_slice(content);
 	v
+}
+
+/// correctly signed Ed25519 requests built by hand: subjects with multi-valued RDNs and
+/// extension requests of every shape (supported, unsupported, mixed)
+pub fn handmade_requests() -> Vec<(String, Vec<u8>)> {
+	let rng = ring::rand::SystemRandom::new();
+	let Ok(doc) = rs::Ed25519KeyPair::generate_pkcs8(&rng) else { return vec![] };
+	let kp = rs::Ed25519KeyPair::from_pkcs8(doc.as_ref()).unwrap();
+	use rs::KeyPair as _;
+	let pk = kp.public_key().as_ref().to_vec();
+	let oid = |b: &[u8]| tlv(0x06, b);
+	let atv = |o: &[u8], v: &str| tlv(0x30, &[oid(o), tlv(0x0c, v.as_bytes())].concat());
+	let (o_o, o_ou, o_cn) = ([0x55u8, 0x04, 0x0a], [0x55u8, 0x04, 0x0b], [0x55u8, 0x04, 0x03]);
+	let rdn = |atvs: Vec<Vec<u8>>| {
+		let mut a = atvs;
+		a.sort();
+		tlv(0x31, &a.concat())
+	};
+	let names: Vec<(&str, Vec<u8>)> = vec![
+		("plain", tlv(0x30, &[rdn(vec![atv(&o_o, "Example Org")]), rdn(vec![atv(&o_cn, "host")])].concat())),
+		("rdn-of-2", tlv(0x30, &[rdn(vec![atv(&o_o, "Example Org")]), rdn(vec![atv(&o_cn, "host"), atv(&o_ou, "payments")])].concat())),
+		("rdn-of-3", tlv(0x30, &[rdn(vec![atv(&o_o, "Example Org"), atv(&o_cn, "host"), atv(&o_ou, "payments")])].concat())),
+		("rdn-of-2-first", tlv(0x30, &[rdn(vec![atv(&o_cn, "host"), atv(&o_ou, "payments")]), rdn(vec![atv(&o_o, "Example Org")])].concat())),
+		("empty", tlv(0x30, &[])),
+	];
+	let ext = |o: &[u8], critical: bool, value: Vec<u8>| {
+		let mut body = oid(o);
+		if critical {
+			body.extend([0x01, 0x01, 0xff]);
+		}
+		body.extend(tlv(0x04, &value));
+		tlv(0x30, &body)
+	};
+	let eku_oid = |last: u8| oid(&[0x2b, 0x06, 0x01, 0x05, 0x05, 0x07, 0x03, last]);
+	let any_eku = oid(&[0x55, 0x1d, 0x25, 0x00]);
+	let unknown_eku = oid(&[0x2b, 0x06, 0x01, 0x04, 0x01, 0x82, 0x37, 0x14, 0x02, 0x02]);
+	let eku = |oids: Vec<Vec<u8>>| ext(&[0x55, 0x1d, 0x25], false, tlv(0x30, &oids.concat()));
+	let san = ext(&[0x55, 0x1d, 0x11], false, tlv(0x30, &[tlv(0x82, b"host.example"), tlv(0x87, &[192, 0, 2, 7]), tlv(0x87, &[0, 0, 0, 0, 0, 0, 0, 0, 0, 0, 0xff, 0xff, 192, 0, 2, 1])].concat()));
+	let ku = ext(&[0x55, 0x1d, 0x0f], true, vec![0x03, 0x02, 0x05, 0xa0]);
+	let bc = ext(&[0x55, 0x1d, 0x13], true, tlv(0x30, &[0x01, 0x01, 0xff]));
+	let private = ext(&[0x2a, 0x03, 0x04], false, vec![0x05, 0x00]);
+	let ext_sets: Vec<(&str, Vec<Vec<u8>>)> = vec![
+		("none", vec![]),
+		("san-ku-eku", vec![san.clone(), ku.clone(), eku(vec![eku_oid(1), eku_oid(2)])]),
+		("eku-each-standard", vec![eku(vec![any_eku.clone(), eku_oid(1), eku_oid(2), eku_oid(3), eku_oid(4), eku_oid(8), eku_oid(9)])]),
+		("eku-ocsp-only", vec![eku(vec![eku_oid(9)])]),
+		("eku-timestamping-only", vec![eku(vec![eku_oid(8)])]),
+		("eku-unknown", vec![eku(vec![unknown_eku.clone()])]),
+		("eku-any-and-unknown", vec![eku(vec![any_eku.clone(), unknown_eku.clone()])]),
+		("eku-server-and-unknown", vec![eku(vec![eku_oid(1), unknown_eku.clone()])]),
+		("basic-constraints", vec![bc.clone()]),
+		("san-and-private-extension", vec![san.clone(), private.clone()]),
+		("ku-and-basic-constraints", vec![ku.clone(), bc.clone()]),
+	];
+	let spki = {
+		let mut bits = vec![0u8];
+		bits.extend_from_slice(&pk);
+		tlv(0x30, &[tlv(0x30, &oid(&[0x2b, 0x65, 0x70])), tlv(0x03, &bits)].concat())
+	};
+	let sig_alg = tlv(0x30, &oid(&[0x2b, 0x65, 0x70]));
+	let mut out = Vec::new();
+	for (nn, name) in &names {
+		for (en, exts) in &ext_sets {
+			if *nn != "plain" && *en != "none" && *en != "san-ku-eku" {
+				continue;
+			}
+			let attrs = if exts.is_empty() {
+				vec![0xa0, 0x00]
+			} else {
+				let req = tlv(0x30, &[oid(&[0x2a, 0x86, 0x48, 0x86, 0xf7, 0x0d, 0x01, 0x09, 0x0e]), tlv(0x31, &tlv(0x30, &exts.concat()))].concat());
+				tlv(0xa0, &req)
+			};
+			let info = tlv(0x30, &[vec![0x02, 0x01, 0x00], name.clone(), spki.clone(), attrs].concat());
+			let sig = kp.sign(&info);
+			let mut sb = vec![0u8];
+			sb.extend_from_slice(sig.as_ref());
+			out.push((format!("{}/{}", nn, en), tlv(0x30, &[info, sig_alg.clone(), tlv(0x03, &sb)].concat())));
+		}
+	}
+	out
 }
 
 /// correctly signed requests whose AlgorithmIdentifiers are spelled in the other legal or
@@ -297,8 +377,18 @@ fn issue_and_check(s: &mut Suite, origin: &str, der: &[u8], parsed: CertificateS
 			s.rep.violate("C06:carries-request", "the parsed request does not carry the requested subject / SANs / key usages / extended key usages", format!("generated from: {}\nparsed: {}", p.sexp(), want.sexp()));
 		}
 	}
-	// the issued certificate itself says what the parsed request says (spec clause of C02 on it)
+	// the issued certificate against the request itself, read by the specification decoders
+	// alone: subject, SANs, key usages, extended key usages carried over; nothing else requested
 	let _ = want;
+	let line = format!("spec-csr-issue {} {}", hex(der), hex(cert.der()));
+	let resp = s.drv.ask(&line);
+	s.rep.count("issued_vs_request_compared");
+	for clause in Suite::parse_fail_pub(&resp) {
+		if clause.starts_with("C06:") {
+			let class = origin.split(':').next().unwrap_or(origin);
+			s.rep.violate(&format!("{}:{}", clause, class), "the certificate issued from an accepted request does not carry exactly what the request asks for", format!("origin={}\ncsr={}\ncert={}\nspec-answer: {}", origin, hex(der), hex(cert.der()), resp));
+		}
+	}
 }
 
 pub fn run(ctx: &mut Ctx) -> Report {
@@ -412,6 +502,14 @@ pub fn run(ctx: &mut Ctx) -> Report {
 		}
 	}
 	s.rep.exhaustive.push("correctly re-signed requests: Ed25519, P-256 and RSA keys x 4 spellings of the SPKI / signature AlgorithmIdentifier parameters".into());
+	// --- hand-built, correctly signed requests: multi-valued RDNs, every shape of extension request
+	for (name, der) in handmade_requests() {
+		s.rep.count("handmade_requests");
+		if let Some(pp) = offer(&mut s, &format!("handmade:{}", name), &der, true) {
+			issue_and_check(&mut s, &format!("handmade:{}", name), &der, pp, None);
+		}
+	}
+	s.rep.exhaustive.push("hand-built signed requests: 5 subject shapes (incl. RDNs of 2 and 3 attributes) x 11 extension-request shapes (supported, each/any standard EKU, unknown EKU alone / with any / with serverAuth, basicConstraints, private extension)".into());
 	// --- mutation sweep over accepted requests (implementation vs oracle only)
 	let budget = if s.ctx.thorough { 20 } else { 5 };
 	for der in accepted.iter().take(budget) {
